@@ -14,7 +14,7 @@ ascending order.
 Trace records: [k,-1,v] ctx.get, [k,-2,now_fs,results...] completed await, [k,-7] BrokenTrigger, [k,-8] DomainReset,
 [k,-9,now_fs] testbench k finished; then -100 and the final value of every signal.  Markers appended by the harness:
 [-555, j] trace under order j differs from order 0; [-556] process / circuit variants differ."""
-import hashlib, random
+import hashlib, itertools, random
 from common import z, zlist, blit
 import exprgen as G
 import astser as AS
@@ -111,17 +111,24 @@ class OrdSet(set):
         items = list(set.__iter__(self))
         if len(items) < 2:
             return iter(items)
-        items.sort(key=lambda e: repr(_keyof(e)))
+        keys = {id(e): repr(_keyof(e)) for e in items}
+        items.sort(key=lambda e: keys[id(e)])
         if mode[0] == "sorted":
             return iter(items)
         if mode[0] == "reversed":
             items.reverse()
             return iter(items)
+        if mode[0] == "perm" and len(items) <= 4:
+            # small sets: the mode number enumerates ALL permutations (thorough: 0..23 covers 4! of them)
+            perms = list(itertools.permutations(items))
+            return iter(perms[(mode[1] + 1) % len(perms)])
         if mode[0] == "fresh":
             _Ctl.counter += 1
             rnd = random.Random(f"{mode[1]}:{_Ctl.counter}")
         else:
-            rnd = random.Random(f"{mode[1]}:{len(items)}")
+            # a fixed permutation per set CONTENT (not per size): two sets of equal size are shuffled independently
+            digest = hashlib.sha1("|".join(keys[id(e)] for e in items).encode()).hexdigest()
+            rnd = random.Random(f"{mode[0]}:{mode[1]}:{digest}")
         rnd.shuffle(items)
         return iter(items)
 
@@ -154,10 +161,12 @@ def install():
 
 
 def order_modes(k):
+    """sorted, reversed, then alternately: the j-th permutation of every set of <= 4 elements (content-seeded shuffle of
+    larger ones) and a fresh permutation at every iteration"""
     modes = [("sorted",), ("reversed",)]
     j = 0
     while len(modes) < k:
-        modes.append(("fresh", j) if j % 2 else ("fixed", j))
+        modes.append(("fresh", j) if j % 3 == 2 else ("perm", j))
         j += 1
     return modes[:k]
 
@@ -202,24 +211,84 @@ class Built:
     pass
 
 
+UNITS = ["s", "ms", "us", "ns", "ps", "fs", "Hz", "kHz", "MHz", "GHz"]      # index = unit code of Engine.period_fs
+_UNIT_FS = [10 ** 15, 10 ** 12, 10 ** 9, 10 ** 6, 10 ** 3, 1]
+
+
+def tspec(case, fs):
+    """a time as (unit code, integer value).  A plain int is femtoseconds; with case["units"] it is written in the
+    coarsest time unit that divides it (Period(ns=3) instead of Period(fs=3000000)); [unit, value] is kept as given
+    (frequency units: the model computes round(10^k / value) itself)."""
+    if isinstance(fs, list):
+        return UNITS.index(fs[0]), fs[1]
+    if case.get("units") and fs > 0:
+        for u, f in enumerate(_UNIT_FS):
+            if fs % f == 0:
+                return u, fs // f
+    return 5, fs
+
+
+def period_of(case, fs):
+    from amaranth.hdl import Period
+    u, v = tspec(case, fs)
+    return Period(**{UNITS[u]: v})
+
+
+def coq_time(case, fs):
+    u, v = tspec(case, fs)
+    return f"(period_fs {u}%nat {z(v)})"
+
+
 def build(case, variant="proc"):
     """variant "proc": user processes are added with add_process; "rtl": each is replaced by the equivalent circuit."""
-    from amaranth.hdl import Signal, Shape, Module, ClockDomain
+    from amaranth.hdl import Signal, Shape, Module, ClockDomain, ClockSignal, ResetSignal
+    from amaranth.lib.memory import Memory
     b = Built()
     sigs = [None] * len(case["sigs"])
     cds = []
     for d, dom in enumerate(case["doms"]):
-        cd = ClockDomain(dom["name"], clk_edge=dom["edge"], reset_less=dom["rst"] is None)
+        cd = ClockDomain(dom["name"], clk_edge=dom["edge"], reset_less=dom["rst"] is None,
+                         async_reset=bool(dom.get("async")))
         cds.append(cd)
         sigs[dom["clk"]] = cd.clk
         if dom["rst"] is not None:
             sigs[dom["rst"]] = cd.rst
+    mems = []
+    for mi, md in enumerate(case.get("mems", [])):
+        mem = Memory(shape=Shape(md["w"], bool(md["sg"])), depth=md["depth"], init=md["init"])
+        mems.append(mem)
+        wps = []
+        for wp in md["wports"]:
+            kw = {} if wp["gran"] is None else {"granularity": wp["gran"]}
+            port = mem.write_port(domain=case["doms"][wp["dom"]]["name"], **kw)
+            wps.append(port)
+            for idx, sig in zip(wp["sigs"], (port.addr, port.data, port.en)):
+                sigs[idx] = sig
+        for rp in md["rports"]:
+            if rp["dom"] is None:
+                port = mem.read_port(domain="comb")
+            else:
+                port = mem.read_port(domain=case["doms"][rp["dom"]]["name"], transparent_for=[wps[j] for j in rp["transp"]])
+            for idx, sig in zip(rp["sigs"], (port.addr, port.data, port.en)):
+                if idx is not None:
+                    sigs[idx] = sig
+        for a_ in range(md["depth"]):
+            sigs[md["base"] + a_] = mem.data[a_]
     for i, (w, sg, init, rl) in enumerate(case["sigs"]):
         if sigs[i] is None:
             sigs[i] = Signal(Shape(w, bool(sg)), init=init, reset_less=bool(rl), name=f"s{i}")
+        elif isinstance(sigs[i], Signal):
+            # a signal created by the implementation (clock, reset, memory port member): the table must describe it
+            assert (len(sigs[i]), bool(sigs[i].shape().signed), sigs[i].init) == (w, bool(sg), init), \
+                f"signal table entry {i} does not describe {sigs[i]!r}"
+    # right-hand sides may name a domain's clock / reset through ClockSignal / ResetSignal instead of the signal itself
+    rsigs = list(sigs)
+    if case.get("clk_leaf"):
+        for dom in case["doms"]:
+            rsigs[dom["clk"]] = ClockSignal(dom["name"])
+            if dom["rst"] is not None:
+                rsigs[dom["rst"]] = ResetSignal(dom["name"])
     top = Module()
-    for cd in cds:
-        top.domains += cd
     mods = []
 
     def lhs(tgt):       # a whole signal, or [sig, lo, hi]: a slice owned by this (fragment, domain)
@@ -227,32 +296,73 @@ def build(case, variant="proc"):
     for k, md in enumerate(case["mods"]):
         m = Module()
         for tgt, term in md["comb"]:
-            m.d.comb += lhs(tgt).eq(G.build(term, sigs))
+            m.d.comb += lhs(tgt).eq(G.build(term, rsigs))
         for d, tgt, term, cond in md["sync"]:
             dn = case["doms"][d]["name"]
             if cond is None:
-                m.d[dn] += lhs(tgt).eq(G.build(term, sigs))
+                m.d[dn] += lhs(tgt).eq(G.build(term, rsigs))
             else:
-                with m.If(G.build(cond, sigs)):
-                    m.d[dn] += lhs(tgt).eq(G.build(term, sigs))
+                with m.If(G.build(cond, rsigs)):
+                    m.d[dn] += lhs(tgt).eq(G.build(term, rsigs))
         mods.append(m)
+    for d, cd in enumerate(cds):         # a domain is declared at the top or inside a submodule (and propagates upwards)
+        where = case["doms"][d].get("where")
+        (top if where is None else mods[where]).domains += cd
     for k, md in enumerate(case["mods"]):
         parent = top if md["parent"] is None else mods[md["parent"]]
         parent.submodules[f"m{k}"] = mods[k]
+    for mi, md in enumerate(case.get("mems", [])):
+        parent = top if md["parent"] is None else mods[md["parent"]]
+        parent.submodules[f"mem{mi}"] = mems[mi]
     if variant == "rtl":
         for k, up in enumerate(case["uprocs"]):
             m = Module()
             if up["k"] == "comb":
                 m.d.comb += sigs[up["out"]].eq(G.build(up["f"], sigs))
-            else:
+            elif up["k"] == "sync":
                 m.d[case["doms"][up["dom"]]["name"]] += sigs[up["out"]].eq(G.build(up["f"], sigs))
             top.submodules[f"u{k}"] = m
     b.top, b.sigs, b.cds = top, sigs, cds
     return b
 
 
+def _edge_arg(sigs, s, bit):
+    sig = sigs[s]
+    return sig if (len(sig) == 1 and bit == 0) else sig[bit]
+
+
+def _combo(case, sigs, ctx, parts):
+    trg = None
+    for p in parts:
+        src = ctx if trg is None else trg
+        if p[0] == "edge":
+            trg = src.edge(_edge_arg(sigs, p[1], p[2]), p[3])
+        elif p[0] == "delay":
+            trg = src.delay(period_of(case, p[1]))
+        elif p[0] == "changed":
+            trg = src.changed(*[sigs[i] for i in p[1]])
+        elif p[0] == "sample":
+            trg = src.sample(*[sigs[i] for i in p[1]])
+    return trg
+
+
 def _mk_uproc(case, b, k, up):
     sigs = b.sigs
+    if up["k"] == "gen":
+        # async for res in <trigger combination>: every output recomputed from the results and the old accumulators
+        outs = up["outs"]
+        shapes = {o: case["sigs"][o][:2] for o, _ in outs}
+
+        async def proc(ctx):
+            acc = {o: case["sigs"][o][2] for o, _ in outs}
+            async for res in _combo(case, sigs, ctx, up["spec"]):
+                env = dict(acc)
+                env.update(zip(up["binds"], [int(v) for v in res]))
+                acc = {o: pynorm(shapes[o][0], shapes[o][1], pyden(f, env)) for o, f in outs}
+                for o, _ in outs:
+                    ctx.set(sigs[o], acc[o])
+        proc.__name__ = f"uproc{k}"
+        return proc
     out = sigs[up["out"]]
     w, sg, init, _ = case["sigs"][up["out"]]
     ins = [sigs[i] for i in up["ins"]]
@@ -281,33 +391,15 @@ def _mk_uproc(case, b, k, up):
 
 
 def _mk_tb(case, b, k, script, trace):
-    from amaranth.hdl import Period
     from amaranth.sim import BrokenTrigger, DomainReset
     sigs, cds = b.sigs, b.cds
-
-    def edge_arg(s, bit):
-        sig = sigs[s]
-        return sig if (len(sig) == 1 and bit == 0) else sig[bit]
-
-    def combo(ctx, parts):
-        trg = None
-        for p in parts:
-            src = ctx if trg is None else trg
-            if p[0] == "edge":
-                trg = src.edge(edge_arg(p[1], p[2]), p[3])
-            elif p[0] == "delay":
-                trg = src.delay(Period(fs=p[1]))
-            elif p[0] == "changed":
-                trg = src.changed(*[sigs[i] for i in p[1]])
-            elif p[0] == "sample":
-                trg = src.sample(*[sigs[i] for i in p[1]])
-        return trg
 
     async def tb(ctx):
         def now():
             return ctx.elapsed_time().femtoseconds
-        try:
-            for op in script:
+
+        async def run_ops(ops):
+            for op in ops:
                 o = op[0]
                 if o == "set":
                     ctx.set(sigs[op[1]], op[2])
@@ -317,10 +409,10 @@ def _mk_tb(case, b, k, script, trace):
                     res = await ctx.tick(cds[op[1]]).sample(*[sigs[i] for i in op[2]])
                     trace.extend([k, -2, now()] + [int(v) for v in res])
                 elif o == "delay":
-                    res = await ctx.delay(Period(fs=op[1]))
+                    res = await ctx.delay(period_of(case, op[1]))
                     trace.extend([k, -2, now()] + [int(v) for v in res])
                 elif o == "combo":
-                    res = await combo(ctx, op[1])
+                    res = await _combo(case, sigs, ctx, op[1])
                     trace.extend([k, -2, now()] + [int(v) for v in res])
                 elif o == "until":
                     res = await ctx.tick(cds[op[1]]).sample(*[sigs[i] for i in op[2]]).until(sigs[op[3]])
@@ -328,8 +420,20 @@ def _mk_tb(case, b, k, script, trace):
                 elif o == "repeat":
                     res = await ctx.tick(cds[op[1]]).sample(*[sigs[i] for i in op[2]]).repeat(op[3])
                     trace.extend([k, -2, now()] + [int(v) for v in res])
+                elif o == "for":
+                    n = 0
+                    async for res in ctx.tick(cds[op[1]]).sample(*[sigs[i] for i in op[2]]):
+                        trace.extend([k, -2, now()] + [int(v) for v in res])
+                        n += 1
+                        if n >= op[3]:
+                            break
+                elif o == "crit":
+                    with ctx.critical():
+                        await run_ops(op[1])
                 else:
                     raise ValueError(o)
+        try:
+            await run_ops(script)
         except BrokenTrigger:
             trace.extend([k, -7])
             return
@@ -342,50 +446,60 @@ def _mk_tb(case, b, k, script, trace):
 
 
 def make_sim(case, variant):
-    from amaranth.hdl import Period
     from amaranth.sim import Simulator
     install()
     b = build(case, variant)
     sim = Simulator(b.top)
     for d, period, phase in case["clocks"]:
         if phase is None:
-            sim.add_clock(Period(fs=period), domain=b.cds[d])
+            sim.add_clock(period_of(case, period), domain=b.cds[d])
         else:
-            sim.add_clock(Period(fs=period), phase=Period(fs=phase), domain=b.cds[d])
-    if variant == "proc":
-        for k, up in enumerate(case["uprocs"]):
+            sim.add_clock(period_of(case, period), phase=period_of(case, phase), domain=b.cds[d])
+    for k, up in enumerate(case["uprocs"]):
+        if variant == "proc" or up["k"] == "gen":
             sim.add_process(_mk_uproc(case, b, k, up))
     trace = []
+    bg = case.get("bg") or [False] * len(case["tbs"])
     for k, script in enumerate(case["tbs"]):
-        sim.add_testbench(_mk_tb(case, b, k, script, trace))
+        sim.add_testbench(_mk_tb(case, b, k, script, trace), background=bool(bg[k]))
     return sim, b, trace
 
 
+EXC_CODES = {"DriverConflict": 1, "DomainError": 2, "NameError": 3, "TypeError": 4, "ValueError": 5, "AssertionError": 6,
+             "SyntaxError": 7, "RuntimeError": 8, "KeyError": 9, "IndexError": 10, "AttributeError": 11}
+
+
 def run_once(case, mode, variant="proc"):
-    _Ctl.mode = None
-    sim, b, trace = make_sim(case, variant)
-    eng = sim._engine
-    assert isinstance(eng._processes, OrdSet) and isinstance(eng._active_triggers, OrdSet) \
-        and isinstance(eng._state.pending, OrdSet)
-    _Ctl.mode = mode
+    from amaranth.hdl import Period
+    trace, b, eng = [], None, None
+    _Ctl.mode = mode                      # the sets built while the design is compiled are permuted as well
     _Ctl.counter = 0
     try:
-        for _ in range(CAP):
-            if not sim.advance():
-                break
-            if eng.now > case["t_end"]:
-                break
-            if (not eng._state.timeline.wakers and not eng._active_triggers
-                    and not any(p.runnable for p in set.__iter__(eng._processes))
-                    and not any(t.runnable for t in eng._testbenches)):
-                break       # quiescent: nothing can ever happen again
+        sim, b, trace = make_sim(case, variant)
+        eng = sim._engine
+        assert isinstance(eng._processes, OrdSet) and isinstance(eng._active_triggers, OrdSet) \
+            and isinstance(eng._state.pending, OrdSet)
+        if case.get("mode") == 1:
+            sim.run_until(Period(fs=case["t_end"]))
         else:
-            trace.extend([-98])
+            for _ in range(CAP):
+                if not sim.advance():
+                    break
+                if eng.now > case["t_end"]:
+                    break
+                if (not eng._state.timeline.wakers and not eng._active_triggers
+                        and not any(p.runnable for p in set.__iter__(eng._processes))
+                        and not any(t.runnable for t in eng._testbenches)):
+                    break       # quiescent: nothing can ever happen again
+            else:
+                trace.extend([-98])
     except Exception as ex:
-        trace.extend([-97, sum(map(ord, type(ex).__name__))])
+        # the model never predicts an exception: any class is a mismatch, reported with its class
+        name = type(ex).__name__
+        trace.extend([-97, EXC_CODES.get(name, 100 + sum(map(ord, name)))])
     finally:
         _Ctl.mode = None
-    final = [int(eng.get_value(s)) for s in b.sigs]
+    final = [int(eng.get_value(s)) for s in b.sigs] if eng is not None else []
     return trace + [-100] + final
 
 
@@ -402,10 +516,12 @@ def run_impl(case):
         if t != base:
             out += [-555, j]
             break
-    if case["uprocs"]:
-        t = run_once(case, modes[0], variant="rtl")
-        if t != base:
-            out += [-556]
+    if any(up["k"] != "gen" for up in case["uprocs"]):
+        for mode in (modes[0], modes[1], modes[-1]):       # the circuit variant under several orders as well
+            t = run_once(case, mode, variant="rtl")
+            if t != base:
+                out += [-556]
+                break
     return out
 
 
@@ -426,7 +542,7 @@ def _trig(p, case):
     if p[0] == "edge":
         return [f"TEdge {p[1]}%nat {z(p[2])} {blit(p[3])}"]
     if p[0] == "delay":
-        return [f"TDelay {z(p[1])}"]
+        return [f"TDelay {coq_time(case, p[1])}"]
     if p[0] == "changed":
         return [f"TChanged {i}%nat" for i in p[1]]
     if p[0] == "sample":
@@ -434,11 +550,10 @@ def _trig(p, case):
     raise ValueError(p)
 
 
-def _tick_spec(case, d, samples):
+def _dd(case, d):
+    """the domain as the model sees it; the lowering of tick()/until() to triggers is Engine.tick_spec"""
     dom = case["doms"][d]
-    pol = dom["edge"] == "pos"
-    rst = f"TSample {dom['rst']}%nat" if dom["rst"] is not None else "TConst 0"
-    return [f"TEdge {dom['clk']}%nat 0 {blit(pol)}", "TConst 0", rst] + [f"TSample {i}%nat" for i in samples]
+    return f"(DD {dom['clk']}%nat {blit(dom['edge'] == 'pos')} {_onat(dom['rst'])} {blit(bool(dom.get('async')))})"
 
 
 def _spec(parts):
@@ -449,34 +564,72 @@ def _op(op, case):
     o = op[0]
     if o == "set":
         w, sg, _, _ = case["sigs"][op[1]]
-        return f"OSet {op[1]}%nat {_sh(w, sg)} {z(op[2])}"
+        return [f"OSet {op[1]}%nat {_sh(w, sg)} {z(op[2])}"]
     if o == "get":
-        return f"OGet {op[1]}%nat"
+        return [f"OGet {op[1]}%nat"]
     if o == "tick":
-        return f"OAwait {_spec(_tick_spec(case, op[1], op[2]))} true"
+        return [f"OAwait (tick_spec {_dd(case, op[1])} {_nats(op[2])}) true"]
     if o == "delay":
-        return f"OAwait [TDelay {z(op[1])}] false"
+        return [f"OAwait [TDelay {coq_time(case, op[1])}] false"]
     if o == "combo":
-        return f"OAwait {_spec([t for p in op[1] for t in _trig(p, case)])} false"
+        return [f"OAwait {_spec([t for p in op[1] for t in _trig(p, case)])} false"]
     if o == "until":
-        return f"OUntil {_spec(_tick_spec(case, op[1], op[2] + [op[3]]))}"
+        return [f"OUntil (until_spec {_dd(case, op[1])} {_nats(op[2])} {op[3]}%nat)"]
     if o == "repeat":
-        return f"ORepeat {_spec(_tick_spec(case, op[1], op[2]))} {int(op[3])}%nat"
+        return [f"ORepeat (tick_spec {_dd(case, op[1])} {_nats(op[2])}) {int(op[3])}%nat"]
+    if o == "for":
+        return [f"OFor (tick_spec {_dd(case, op[1])} {_nats(op[2])}) {int(op[3])}%nat"]
+    if o == "crit":         # `with ctx.critical():` in a background testbench: critical inside, background again after
+        return ["OCrit true"] + [t for x in op[1] for t in _op(x, case)] + ["OCrit false"]
     raise ValueError(o)
 
 
 def rtl_processes(case):
     """(fragment, domain) pairs in the order _FragmentCompiler walks the elaborated design of the "proc" variant,
     each serialised with the case's signal numbering."""
+    from amaranth.hdl import Cat
     from amaranth.hdl._ir import Fragment
+    from amaranth.hdl._mem import MemoryInstance
     b = build(case, "proc")
     design = Fragment.get(b.top, platform=None).prepare()
-    sm = AS.SigMap(b.sigs)
+    plain = [s for s in b.sigs if type(s).__name__ == "Signal"]
+    sm = AS.SigMap([])
+    for i, s in enumerate(b.sigs):          # rows are not signals: keep their indices out of the signal map
+        if type(s).__name__ == "Signal":
+            sm.index[id(s)] = i
+    sm.signals = list(b.sigs)
     n = len(b.sigs)
     shapes = [[w, bool(sg)] for (w, sg, _, _) in case["sigs"]]
     out = []
 
+    def ex(v):
+        return G.coq_expr(AS.ser_value(v, sm), shapes)
+
     def walk(frag):
+        if isinstance(frag, MemoryInstance):
+            md = next(m for m in case["mems"] if b.sigs[m["base"]]._memory is frag._data)
+            rowsh = _sh(md["w"], md["sg"])
+            doms = {p._domain for p in frag._read_ports} | {p._domain for p in frag._write_ports}
+            for dn in sorted(doms):
+                rps = [p for p in frag._read_ports if p._domain == dn]
+                if dn == "comb":
+                    inputs = sorted({sm.get(s) for p in rps for s in p._addr._rhs_signals()})
+                    rterms = [f"RP {ex(p._addr)} {ex(p._en)} {sm.get(p._data)}%nat []" for p in rps]
+                    out.append(f"DMemComb {md['base']}%nat {md['depth']}%nat {rowsh} {_spec(rterms)} {_nats(inputs)}")
+                else:
+                    cd = frag.domains[dn]
+                    if cd.async_reset and cd.rst is not None:
+                        raise ValueError("memory ports in an asynchronous-reset domain are not modelled")
+                    widx = [i for i, p in enumerate(frag._write_ports) if p._domain == dn]
+                    wterms = []
+                    for i in widx:
+                        p = frag._write_ports[i]
+                        en = Cat(bit.replicate(p._granularity) for bit in p._en)
+                        wterms.append(f"WP {ex(p._addr)} {ex(p._data)} {ex(en)}")
+                    rterms = [f"RP {ex(p._addr)} {ex(p._en)} {sm.get(p._data)}%nat "
+                              f"{_nats([widx.index(j) for j in p._transparent_for])}" for p in rps]
+                    out.append(f"DMemSync {md['base']}%nat {md['depth']}%nat {rowsh} {sm.get(cd.clk)}%nat "
+                               f"{1 if cd.clk_edge == 'pos' else 0} {_spec(wterms)} {_spec(rterms)}")
         for dn, stmts in frag.statements.items():
             terms = AS.ser_stmts(stmts, sm)
             if dn == "comb":
@@ -484,10 +637,13 @@ def rtl_processes(case):
                 out.append(f"DComb {AS.coq_stmts(terms, shapes)} {_nats(inputs)}")
             else:
                 cd = frag.domains[dn]
-                pol = 1 if cd.clk_edge == "pos" else 0
                 rst = None if cd.rst is None else sm.get(cd.rst)
-                out.append(f"DSync {AS.coq_stmts(terms, shapes)} {sm.get(cd.clk)}%nat {pol} {_onat(rst)} "
-                           f"{blit(bool(cd.async_reset))}")
+                if cd.async_reset and rst is not None:
+                    out.append(f"DSyncA {AS.coq_stmts(terms, shapes)} {sm.get(cd.clk)}%nat {blit(cd.clk_edge == 'pos')} "
+                               f"{rst}%nat")
+                else:
+                    out.append(f"DSync {AS.coq_stmts(terms, shapes)} {sm.get(cd.clk)}%nat "
+                               f"{1 if cd.clk_edge == 'pos' else 0} {_onat(rst)} false")
         for sub, _name, _loc in frag.subfragments:
             walk(sub)
     walk(design.fragment)
@@ -501,9 +657,14 @@ def coq_term(case):
     sigs = "[" + "; ".join(f"Build_sigdesc {_sh(w, sg)} {z(init)} {blit(rl)}" for (w, sg, init, rl) in case["sigs"]) + "]"
     ds = rtl_processes(case)
     for d, period, phase in case["clocks"]:
-        ph = "None" if phase is None else f"(Some {z(phase)})"
-        ds.append(f"DClock {case['doms'][d]['clk']}%nat {ph} {z(period)}")
+        pu, pv = tspec(case, period)
+        ph = "None" if phase is None else "(Some ({}%nat, {}))".format(*map(z, tspec(case, phase)))
+        ds.append(f"DClock {case['doms'][d]['clk']}%nat {ph} ({pu}%nat, {z(pv)})")
     for up in case["uprocs"]:
+        if up["k"] == "gen":
+            outs = "[" + "; ".join(f"({o}%nat, {G.coq_expr(f, shapes)})" for o, f in up["outs"]) + "]"
+            ds.append(f"DUGen {_spec([t for p_ in up['spec'] for t in _trig(p_, case)])} {_nats(up['binds'])} {outs}")
+            continue
         f = G.coq_expr(up["f"], shapes)
         if up["k"] == "comb":
             ds.append(f"DUComb {up['out']}%nat {_nats(up['ins'])} {f}")
@@ -511,8 +672,10 @@ def coq_term(case):
             dom = case["doms"][up["dom"]]
             ds.append(f"DUSync {up['out']}%nat {dom['clk']}%nat {blit(dom['edge'] == 'pos')} {_onat(dom['rst'])} "
                       f"{_nats(up['ins'])} {f}")
-    tbs = "[" + "; ".join("[" + "; ".join(_op(op, case) for op in script) + "]" for script in case["tbs"]) + "]"
-    return f"k_run {sigs} [{'; '.join(ds)}] {tbs} {z(case['t_end'])}"
+    bg = case.get("bg") or [False] * len(case["tbs"])
+    tbs = "[" + "; ".join(f"({blit(bg[k])}, [" + "; ".join(t for op in script for t in _op(op, case)) + "])"
+                          for k, script in enumerate(case["tbs"])) + "]"
+    return f"k_run {sigs} [{'; '.join(ds)}] {tbs} {z(case['t_end'])} {int(case.get('mode', 0))}"
 
 
 # ------------------------------------------------------------------ generators
@@ -729,6 +892,254 @@ def _tborder_case(rng):
             "t_end": 30 * period, "r": f"tborder:{ntb}tb"}
 
 
+def _map_leaves(t, fn):
+    """apply fn to every ["s", i] leaf of a term"""
+    k = t[0]
+    if k == "s":
+        return fn(t)
+    if k == "c":
+        return t
+    if k == "o1":
+        return [k, t[1], _map_leaves(t[2], fn)]
+    if k == "o2":
+        return [k, t[1], _map_leaves(t[2], fn), _map_leaves(t[3], fn)]
+    if k == "sl":
+        return [k, _map_leaves(t[1], fn), t[2], t[3]]
+    if k == "pt":
+        return [k, _map_leaves(t[1], fn), _map_leaves(t[2], fn), t[3], t[4]]
+    if k == "cat":
+        return [k, [_map_leaves(x, fn) for x in t[1]]]
+    if k == "sw":
+        return [k, _map_leaves(t[1], fn), [[ps, _map_leaves(e, fn)] for ps, e in t[2]]]
+    return t
+
+
+def _enrich(case, rng):
+    """audit follow-up: asynchronous-reset domains, domains declared inside submodules, ClockSignal / ResetSignal leaves,
+    times written in other units, `async for` over a tick"""
+    sync_up_doms = {up["dom"] for up in case["uprocs"] if up["k"] == "sync"}
+    for d, dom in enumerate(case["doms"]):
+        if dom["rst"] is not None and d not in sync_up_doms and rng.random() < 0.45:
+            dom["async"] = True
+        if rng.random() < 0.4:
+            dom["where"] = rng.randrange(len(case["mods"]))
+    if rng.random() < 0.5:
+        case["clk_leaf"] = True
+        ctl = [dom["clk"] for dom in case["doms"]] + [dom["rst"] for dom in case["doms"] if dom["rst"] is not None]
+        for md in case["mods"]:
+            for ent in md["comb"]:
+                if rng.random() < 0.3:
+                    ent[1] = ["o2", rng.choice(("^", "+", "&")), ent[1], ["s", rng.choice(ctl)]]
+            for ent in md["sync"]:
+                if rng.random() < 0.3:
+                    ent[2] = ["o2", rng.choice(("^", "+", "|")), ent[2], ["s", rng.choice(ctl)]]
+    if rng.random() < 0.4:
+        case["units"] = True
+    for script in case["tbs"]:
+        for i, op in enumerate(script):
+            if op[0] == "tick" and rng.random() < 0.25:
+                script[i] = ["for", op[1], op[2], rng.randrange(1, 4)]
+    tags = "".join(t for t, on in (("A", any(d_.get("async") for d_ in case["doms"])), ("L", case.get("clk_leaf")),
+                                   ("U", case.get("units"))) if on)
+    case["r"] += ":x" + tags
+    return case
+
+
+def _mem_case(rng, kind):
+    """a lib.memory.Memory inside the design: 1-2 write ports (one or two domains whose edges never coincide), a comb
+    read port and possibly a synchronous (transparent) one, logic consuming the read data; testbenches drive the port
+    signals, read the comb read data IMMEDIATELY after the edge, read and write rows directly.
+    kind "two_wr": two write ports of one domain write different rows in one delta while the comb read port watches one
+    of them (the `changed` flag of _PyMemoryState.commit must be the OR over all queued rows)."""
+    sigs, doms, clocks = [], [], []
+    ndom = 1 if kind == "two_wr" else rng.choice((1, 1, 2))
+    period = rng.choice((10, 20, 1000))
+    for d in range(ndom):
+        clk = len(sigs)
+        sigs.append([1, False, 0, False])
+        rst = None
+        if rng.random() < 0.4:
+            rst = len(sigs)
+            sigs.append([1, False, 0, False])
+        doms.append({"name": ["sync", "b"][d], "edge": "pos" if rng.random() < 0.8 else "neg", "clk": clk, "rst": rst})
+        clocks.append([d, period, (0, 3)[d]])        # toggles at 0,5,10.. and 3,8,13..: edges never coincide
+    sg = kind != "two_wr" and rng.random() < 0.2
+    w = rng.randrange(2, 7)
+    depth = rng.choice((2, 3, 4, 5))
+    aw = (depth - 1).bit_length()
+    init = [G.rand_value(rng, w, sg) for _ in range(rng.randrange(0, depth + 1))]
+    nw = 2 if kind == "two_wr" else rng.choice((1, 2))
+    wports, rports = [], []
+    for j in range(nw):
+        gran = None
+        if not sg and rng.random() < 0.4:
+            gran = rng.choice([g for g in range(1, w + 1) if w % g == 0])
+        a, dd, e = len(sigs), len(sigs) + 1, len(sigs) + 2
+        sigs += [[aw, False, 0, False], [w, sg, 0, False], [(w // gran) if gran else 1, False, 0, False]]
+        wports.append({"dom": 0 if kind == "two_wr" else rng.randrange(ndom), "gran": gran, "sigs": [a, dd, e]})
+    a, dd = len(sigs), len(sigs) + 1
+    sigs += [[aw, False, 0, False], [w, sg, 0, False]]
+    rports.append({"dom": None, "transp": [], "sigs": [a, dd, None]})
+    if rng.random() < 0.6:
+        d = rng.randrange(ndom)
+        same = [j for j, wp in enumerate(wports) if wp["dom"] == d]
+        a, dd, e = len(sigs), len(sigs) + 1, len(sigs) + 2
+        sigs += [[aw, False, 0, False], [w, sg, 0, False], [1, False, 1, False]]
+        rports.append({"dom": d, "transp": [j for j in same if rng.random() < 0.6], "sigs": [a, dd, e]})
+    # design logic fed by the read data
+    comb = len(sigs)
+    sigs.append([w + 1, False, 0, False])
+    reg = len(sigs)
+    sigs.append([w, False, 0, False])
+    mods = [{"parent": None, "comb": [[comb, ["o2", "+", ["s", rports[0]["sigs"][1]], ["c", 1, 1, False]]]],
+             "sync": [[0, reg, ["o2", "^", ["s", reg], ["s", rports[-1]["sigs"][1]]], None]]}]
+    base = len(sigs)
+    initn = [init[i] if i < len(init) else 0 for i in range(depth)]
+    for a_ in range(depth):
+        sigs.append([w, sg, initn[a_], False])
+    mems = [{"w": w, "sg": sg, "depth": depth, "init": init, "parent": rng.choice((None, 0)), "wports": wports,
+             "rports": rports, "base": base}]
+    rows = list(range(base, base + depth))
+    rdata = [rp["sigs"][1] for rp in rports]
+    tbs = []
+    maxa = (1 << aw) - 1
+
+    def val(i):
+        ww, ss = sigs[i][0], sigs[i][1]
+        return G.rand_value(rng, ww, ss)
+    for k in range(rng.randrange(1, 3)):
+        script = []
+        for _ in range(rng.randrange(5, 13)):
+            if kind == "two_wr" and k == 0:
+                # both ports enabled on DIFFERENT rows; the comb read port watches the row of the FIRST port, whose data
+                # changes, while the second port (queued last) often rewrites the value its row already holds
+                a0 = rng.randrange(depth)
+                a1 = rng.choice([x for x in range(depth) if x != a0])
+                script += [["set", wports[0]["sigs"][0], a0], ["set", wports[0]["sigs"][1], val(wports[0]["sigs"][1])],
+                           ["set", wports[0]["sigs"][2], (1 << sigs[wports[0]["sigs"][2]][0]) - 1],
+                           ["set", wports[1]["sigs"][0], a1], ["set", wports[1]["sigs"][2], (1 << sigs[wports[1]["sigs"][2]][0]) - 1],
+                           ["set", rports[0]["sigs"][0], a0], ["get", base + a1]]
+                if rng.random() < 0.6:      # second port writes what is already there: its row does not change
+                    script.insert(-1, ["get", base + a1])
+                    script.append(["set", wports[1]["sigs"][1], 0])
+                else:
+                    script.append(["set", wports[1]["sigs"][1], val(wports[1]["sigs"][1])])
+                script += [["tick", 0, []], ["get", rports[0]["sigs"][1]], ["get", comb], ["get", base + a0]]
+                continue
+            c = rng.random()
+            if c < 0.35:
+                port = rng.choice(wports)
+                i = rng.choice(port["sigs"])
+                script.append(["set", i, rng.randrange(0, maxa + 1) if i == port["sigs"][0] else
+                               ((1 << sigs[i][0]) - 1 if (i == port["sigs"][2] and rng.random() < 0.5) else val(i))])
+            elif c < 0.5:
+                rp = rng.choice(rports)
+                i = rng.choice([x for x in rp["sigs"] if x is not None and x != rp["sigs"][1]])
+                script.append(["set", i, rng.randrange(0, maxa + 1) if i == rp["sigs"][0] else rng.randrange(2)])
+            elif c < 0.68:
+                script.append(["tick", rng.randrange(ndom), rng.sample(rdata + [comb, reg], rng.randrange(0, 3))])
+                script.append(["get", rng.choice(rdata)])
+            elif c < 0.8:
+                script.append(["get", rng.choice(rows + rdata + [comb, reg])])
+            elif c < 0.88:
+                r_ = rng.choice(rows)
+                script.append(["set", r_, val(r_) + (rng.choice((0, 0, 1 << w)))])
+                script.append(["get", rdata[0]])
+            elif c < 0.94:
+                script.append(["delay", rng.choice((1, 5, 10, period))])
+            else:
+                for dom in doms:
+                    if dom["rst"] is not None:
+                        script.append(["set", dom["rst"], rng.randrange(2)])
+                        break
+        for r_ in rows[:2]:
+            script.append(["get", r_])
+        tbs.append(script)
+    return {"sigs": sigs, "doms": doms, "mods": mods, "mems": mems, "uprocs": [], "clocks": clocks, "tbs": tbs,
+            "t_end": 40 * period, "r": f"mem:{kind}:{nw}w{len(rports)}r{ndom}d" + (":s" if sg else "")}
+
+
+def _misc_case(rng, kind):
+    """script operations and processes outside the two documented patterns:
+    "bg"   : background testbenches, `with ctx.critical():`, `async for` over a tick; the run ends with the critical ones;
+    "until": the simulation is driven by Simulator.run_until(deadline) instead of advance() while critical;
+    "gen"  : user processes that loop over an edge / a periodic delay / several triggers and drive one or two signals;
+    "freq" : clock periods given as frequencies and other time units."""
+    sigs = [[1, False, 0, False], [1, False, 0, False]]
+    doms = [{"name": "sync", "edge": "pos", "clk": 0, "rst": 1, "async": rng.random() < 0.3}]
+    period = rng.choice((4, 10, 14, 1000))
+    clocks = [[0, period, rng.choice((None, 0, period // 2))]]
+    case = {"doms": doms, "uprocs": [], "mode": 0}
+    if kind == "freq":
+        unit, v = rng.choice((("MHz", 3), ("MHz", 7), ("GHz", 3), ("GHz", 1000), ("kHz", 999983), ("MHz", 1000),
+                              ("GHz", 7), ("ns", 7), ("ps", 999983), ("us", 1), ("GHz", 6), ("MHz", 125)))
+        clocks = [[0, [unit, v], rng.choice((None, ["ps", 1], ["fs", 0]))]]
+        period = {"MHz": round(10 ** 9 / v), "GHz": round(10 ** 6 / v), "kHz": round(10 ** 12 / v)}.get(unit) or \
+            v * _UNIT_FS[UNITS.index(unit)]
+        case["units"] = True
+
+    def new_sig(w, init=0):
+        sigs.append([w, False, init, False])
+        return len(sigs) - 1
+    a = new_sig(4, rng.randrange(16))
+    b_ = new_sig(3, rng.randrange(8))
+    cnt = new_sig(5, rng.randrange(32))
+    cmb = new_sig(6)
+    mods = [{"parent": None, "comb": [[cmb, ["o2", "+", ["s", a], ["s", cnt]]]],
+             "sync": [[0, cnt, ["o2", "+", ["s", cnt], ["s", b_]], None]]}]
+    data = [a, b_, cnt, cmb]
+    if kind == "gen":
+        for j in range(rng.randrange(1, 3)):
+            outs = [new_sig(rng.randrange(3, 7), rng.randrange(8)) for _ in range(rng.choice((1, 1, 2)))]
+            style = rng.choice(("edge", "delay", "multi"))
+            if style == "edge":
+                s_ = rng.choice((0, cnt))
+                spec, binds = [["edge", s_, 0, rng.random() < 0.5], ["sample", [a, cnt]]], [90, a, cnt]
+            elif style == "delay":
+                spec, binds = [["delay", rng.choice((period, period // 2 + 1, 3 * period))], ["sample", [b_]]], [91, b_]
+            else:
+                spec, binds = [["changed", [a]], ["edge", 0, 0, True], ["sample", [b_]]], [a, 92, b_]
+            leaves = [x for x in binds if x < 90] + outs
+            up = {"k": "gen", "spec": spec, "binds": binds,
+                  "outs": [[o, _uterm(rng, leaves, 2)] for o in outs]}
+            case["uprocs"].append(up)
+            data += outs
+    tbs, bg = [], []
+    ntb = rng.randrange(2, 4)
+    for k in range(ntb):
+        script = []
+        is_bg = kind == "bg" and k > 0
+        for _ in range(rng.randrange(3, 9)):
+            c = rng.random()
+            if c < 0.25:
+                s_ = rng.choice((a, b_))
+                script.append(["set", s_, rng.randrange(1 << sigs[s_][0])])
+            elif c < 0.45:
+                script.append(["get", rng.choice(data)])
+            elif c < 0.6:
+                script.append(["tick", 0, rng.sample(data, rng.randrange(0, 3))])
+            elif c < 0.72:
+                script.append(["for", 0, rng.sample(data, rng.randrange(0, 3)), rng.randrange(1, 5)])
+            elif c < 0.82:
+                script.append(["delay", rng.choice((0, 1, period, period // 2, 2 * period + 1))])
+            elif c < 0.9 and is_bg:
+                script.append(["crit", [["tick", 0, [cnt]], ["get", cmb], ["delay", period]]])
+            elif c < 0.95:
+                script.append(["repeat", 0, [cnt], rng.randrange(1, 4)])
+            else:
+                script.append(["set", 1, rng.randrange(2)])
+        if is_bg and rng.random() < 0.5:
+            script += [["for", 0, [cnt], 50]]          # a background testbench that would go on for ever
+        tbs.append(script)
+        bg.append(is_bg)
+    case.update({"sigs": sigs, "mods": mods, "clocks": clocks, "tbs": tbs, "bg": bg,
+                 "t_end": rng.choice((10, 20, 30)) * period, "r": f"misc:{kind}"})
+    if kind == "until":
+        case["mode"] = 1
+        case["t_end"] = rng.choice((7, 12, 25)) * period + rng.randrange(0, period)
+    return case
+
+
 def _scenario(rng, want_uproc):
     ndom = rng.choice((1, 1, 2, 2, 3))
     sigs, doms = [], []
@@ -884,8 +1295,16 @@ def gen_cases(tier, seed):
                     cases.append(_clock_case(period, phase, "neg" if n % 3 == 0 else "pos", style, n % 2 == 0, n))
     for _ in range(400 if thorough else 60):
         cases.append(_delay_case(rng))
+    rng4 = random.Random(f"enrich:{seed}")
     for i in range(3000 if thorough else 320):
-        cases.append(_scenario(rng, want_uproc=(i % 3 == 0)))
+        c = _scenario(rng, want_uproc=(i % 3 == 0))
+        cases.append(_enrich(c, rng4) if i % 2 else c)
+    rng5 = random.Random(f"mem:{seed}")
+    for i in range(600 if thorough else 90):
+        cases.append(_mem_case(rng5, "two_wr" if i % 3 == 0 else "rand"))
+    rng6 = random.Random(f"misc:{seed}")
+    for i in range(500 if thorough else 80):
+        cases.append(_misc_case(rng6, ("bg", "until", "gen", "freq")[i % 4]))
     rng2 = random.Random(f"split:{seed}")
     for i in range(600 if thorough else 90):
         cases.append(_split_case(rng2, ("bus", "reg", "mixed")[i % 3]))
